@@ -112,11 +112,34 @@ Lemma name_of_value_arith v :
    (v / 2 ^ 60) mod 2 ^ 3, (v / 2 ^ 63) mod 2).
 Proof. unfold name_of_value. bits_to_arith. reflexivity. Qed.
 
+(* one more field on top of an accumulated value that fits below it: `|` and `+` agree (the source may use either) *)
+Lemma lor_field acc f k : 0 <= k -> 0 <= acc < 2 ^ k -> Z.lor acc (f * 2 ^ k) = acc + f * 2 ^ k.
+Proof.
+  intros Hk Ha. rewrite Z.lor_comm. rewrite (lor_add_low (f * 2 ^ k) acc k); [lia|exact Hk|apply Z.mod_mul; lia|exact Ha].
+Qed.
+
 Lemma name_value_arith idn mc ei fi fn rb vs vsi ig aac :
+  0 <= idn < 2 ^ 21 -> 0 <= mc < 2 ^ 11 -> 0 <= ei < 2 ^ 3 -> 0 <= fi < 2 ^ 5 -> 0 <= fn < 2 ^ 8 ->
+  0 <= rb < 2 -> 0 <= vs < 2 ^ 7 -> 0 <= vsi < 2 ^ 4 -> 0 <= ig < 2 ^ 3 ->
   name_value idn mc ei fi fn rb vs vsi ig aac =
   idn + mc * 2 ^ 21 + ei * 2 ^ 32 + fi * 2 ^ 35 + fn * 2 ^ 40 + rb * 2 ^ 48 + vs * 2 ^ 49 +
   vsi * 2 ^ 56 + ig * 2 ^ 60 + aac * 2 ^ 63.
-Proof. unfold name_value. bits_to_arith. lia. Qed.
+Proof.
+  intros H1 H2 H3 H4 H5 H6 H7 H8 H9. unfold name_value. repeat (rewrite shiftl_mul by lia).
+  rewrite ?(lor_field idn mc 21) by lia.
+  rewrite ?(lor_field (idn + mc * 2 ^ 21) ei 32) by (pow2_norm; lia).
+  rewrite ?(lor_field (idn + mc * 2 ^ 21 + ei * 2 ^ 32) fi 35) by (pow2_norm; lia).
+  rewrite ?(lor_field (idn + mc * 2 ^ 21 + ei * 2 ^ 32 + fi * 2 ^ 35) fn 40) by (pow2_norm; lia).
+  rewrite ?(lor_field (idn + mc * 2 ^ 21 + ei * 2 ^ 32 + fi * 2 ^ 35 + fn * 2 ^ 40) rb 48) by (pow2_norm; lia).
+  rewrite ?(lor_field (idn + mc * 2 ^ 21 + ei * 2 ^ 32 + fi * 2 ^ 35 + fn * 2 ^ 40 + rb * 2 ^ 48) vs 49) by (pow2_norm; lia).
+  rewrite ?(lor_field (idn + mc * 2 ^ 21 + ei * 2 ^ 32 + fi * 2 ^ 35 + fn * 2 ^ 40 + rb * 2 ^ 48 + vs * 2 ^ 49) vsi 56)
+    by (pow2_norm; lia).
+  rewrite ?(lor_field (idn + mc * 2 ^ 21 + ei * 2 ^ 32 + fi * 2 ^ 35 + fn * 2 ^ 40 + rb * 2 ^ 48 + vs * 2 ^ 49 + vsi * 2 ^ 56) ig 60)
+    by (pow2_norm; lia).
+  rewrite ?(lor_field (idn + mc * 2 ^ 21 + ei * 2 ^ 32 + fi * 2 ^ 35 + fn * 2 ^ 40 + rb * 2 ^ 48 + vs * 2 ^ 49 + vsi * 2 ^ 56 +
+                       ig * 2 ^ 60) aac 63) by (pow2_norm; lia).
+  pow2_norm. lia.
+Qed.
 
 (* fields are at the J1939-81 positions; value gives back v with bit 48 cleared *)
 Theorem T15_4_name_fields_of_value v :
@@ -134,7 +157,7 @@ Theorem T15_4_name_value_roundtrip v :
   name_value_f (name_ctor_value v) = v - ((v / 2 ^ 48) mod 2) * 2 ^ 48.
 Proof.
   intros H. rewrite T15_4_name_fields_of_value. unfold name_value_f.
-  rewrite name_value_arith. pow2_norm. lia.
+  rewrite name_value_arith by (pow2_norm; lia). pow2_norm. lia.
 Qed.
 
 Theorem T15_4_name_value_in_range v :
@@ -148,7 +171,7 @@ Theorem T15_4_name_fields_roundtrip f :
 Proof.
   destruct f as [[[[[[[[[idn mc] ei] fi] fn] rb] vs] vsi] ig] aac].
   unfold name_fields_in_range. intros (H1 & H2 & H3 & H4 & H5 & H6 & H7 & H8 & H9 & H10). subst rb.
-  rewrite T15_4_name_fields_of_value. unfold name_value_f. rewrite name_value_arith.
+  rewrite T15_4_name_fields_of_value. unfold name_value_f. rewrite name_value_arith by lia.
   pow2_norm.
   repeat (f_equal; try lia).
 Qed.
